@@ -110,10 +110,12 @@ StepReply(st, r, e) ==
         \* (left by an earlier open case - nothing is defined on it until a SET / UNSET replaces it)
         agn == exec /\ \E v \in before : (~WellFormedValue(v) \/ Agnostic(Dec(v), DecOp(rq.op)))
         edge == Edge(rq, r, e)
+        \* (nothing is defined on a stored frame that is already malformed - `agn` above; the interpreter is not run on it)
+        Ap(v) == IF WellFormedValue(v) THEN ApplyFrame(v, rq.op, edge) ELSE v
         after == IF ~exec THEN before
-                 ELSE IF open THEN before \cup {ApplyFrame(v, rq.op, edge) : v \in before}
-                 ELSE {ApplyFrame(v, rq.op, edge) : v \in before}
-        coded == IF ~exec \/ open THEN r.val ELSE ApplyFrameCoded(r.val, rq.op, edge)
+                 ELSE IF open THEN before \cup {Ap(v) : v \in before}
+                 ELSE {Ap(v) : v \in before}
+        coded == IF ~exec \/ open \/ ~WellFormedValue(r.val) THEN r.val ELSE ApplyFrameCoded(r.val, rq.op, edge)
         m2 == [m1 EXCEPT !.cands = after, !.coded = coded, !.pend = DelFn(@, r.rid), !.nrep = @ + 1,
                          !.nops = @ + (IF exec /\ ~open THEN 1 ELSE 0)]
     IN [mm |-> m2, applied |-> st.applied + (IF exec THEN 1 ELSE 0), agn |-> st.agn \/ agn,
